@@ -54,6 +54,7 @@ def verify_contract(c, src_index, unroll=0, timeout_ms=20000, registry=REGISTRY,
     """returns dict(name, obligations[], paths, errors[], secs, ...)"""
     t0 = time.time()
     ex = Explorer(timeout_ms, max_paths)
+    ex.feas_timeout_ms = c.policy.get('feas_timeout_ms', ex.feas_timeout_ms)
     ex.known = list(known)
     ex.pinned = pinned
     ex.last_outcomes = []
@@ -201,8 +202,7 @@ def check_outcome(c, cx, outcome, p, run, ex):
                 run.heap = saved
             for ecls, cond in conds.items():
                 run.oblige(f'{name}#post.must_raise[{ecls.__name__}]', Not(cond))
-        for label, t in c.post(cx, val, **p).items():
-            run.oblige(f'{name}#post.{label}', t)
+        run.oblige_all([(f'{name}#post.{label}', t) for label, t in c.post(cx, val, **p).items()])
 
 
 def summarize(res):
